@@ -118,6 +118,15 @@ fn run_lib(entry: &str, settings: &Settings, input: &str) -> String {
             let _without: (svgbob::Node<()>, f32, f32) = cb.get_node_with_size(settings);
             cb.insert(*c, *ch);
         }
+        // every occupied cell overwritten with a placeholder letter and rendered, then the characters written back: no cell
+        // is added or removed between these two renderings, only the content of the cells changes
+        for (c, _) in cells.iter() {
+            cb.insert(*c, 'x');
+        }
+        let _placeholder: svgbob::Node<()> = cb.get_node();
+        for (c, ch) in cells.iter() {
+            cb.insert(*c, *ch);
+        }
         let (node, _w, _h): (svgbob::Node<()>, f32, f32) = cb.get_node_with_size(settings);
         let mut buffer = String::new();
         node.render(&mut buffer).expect("must render");
